@@ -141,6 +141,20 @@ def run_case(c):
                 def f2():
                     x = Note(n, o, channel=9, velocity=31); x.transpose(sh, up); return proj(x)
                 R.append(call("transpose", {"n": list(n), "o": o, "sh": list(sh), "up": up, "channel": 9, "velocity": 31}, f2))
+    elif k == "tr2":
+        # a second transposition applied to what a downward transposition from octave 0 left (names below C-0 live in octave -1)
+        n, sh = txt(c["n"]), txt(c["sh"])
+        def first():
+            x = Note(n, 0); x.transpose(sh, False); return proj(x)
+        r1 = call("transpose", {"n": list(n), "o": 0, "sh": list(sh), "up": False}, first)
+        R.append(r1)
+        if r1["ok"]:
+            mid = r1["out"]
+            for sh2 in ("2", "b3", "4", "5", "7", "1"):
+                for up in (True, False):
+                    def second():
+                        x = Note(n, 0); x.transpose(sh, False); x.transpose(sh2, up); return proj(x)
+                    R.append(call("transpose", {"n": mid["n"], "o": mid["o"], "sh": list(sh2), "up": up, "reached_by": "a downward transposition from octave 0"}, second))
     elif k == "octave":
         o, d, n = c["o"], c["diff"], txt(c["n"])
         def h():
